@@ -471,7 +471,7 @@ def run_case(ctx, case):
             # [setup source if needed] read x3, (prerequisite mutator), mutator of the template kind, same reads again
             if not tmpl:
                 core = [o for o in CORE_OBS if o in obs_names]
-                picks = [core[int(i)] for i in rng.choice(len(core), size=4, replace=False)]
+                picks = ["cost_function_value", "get_result_dict()"] + [core[int(i)] for i in rng.choice(len(core), size=4, replace=False) if core[int(i)] not in ("cost_function_value", "get_result_dict()")]
                 pre = {"enable_error": ["add_error", "add_error", "disable_error"], "disable_error": ["add_error", "add_error"], "release_parameter": ["fix_parameter"], "unlimit_parameter": ["limit_parameter"]}.get(case["template"], [])
                 tmpl.extend([("setup", None)] + [("mut", p) for p in pre] + [("read", o) for o in picks] + [("mut", case["template"])] + [("read", o) for o in picks])
             if tpos[0] >= len(tmpl):
